@@ -17,6 +17,7 @@ package main
 
 import (
 	"context"
+	"encoding/hex"
 	"encoding/json"
 	"fmt"
 	"math"
@@ -30,6 +31,7 @@ import (
 	"0chain.net/core/datastore"
 	"0chain.net/core/encryption"
 	"github.com/0chain/common/core/currency"
+	hbls "github.com/herumi/bls-go-binary/bls"
 	"verif/lib/ev"
 )
 
@@ -174,7 +176,7 @@ func intake(wire []byte, ts common.Timestamp) (*transaction.Transaction, string,
 
 func effectView(t *transaction.Transaction) map[string]string {
 	return map[string]string{
-		"time": fmt.Sprint(t.CreationDate), "nonce": fmt.Sprint(t.Nonce), "sender": t.ClientID + "/" + t.PublicKey,
+		"time": fmt.Sprint(t.CreationDate), "nonce": fmt.Sprint(t.Nonce), "sender": t.ClientID + "/" + canonicalKey(t.PublicKey),
 		"recipient": t.ToClientID, "value": fmt.Sprint(uint64(t.Value)), "data": t.TransactionData,
 		"fee": fmt.Sprint(uint64(t.Fee)), "type": fmt.Sprint(t.TransactionType),
 	}
@@ -189,7 +191,7 @@ func c30() {
 	run.Bounds["schemes"] = schemes
 	run.Bounds["clients_per_scheme"] = nClients
 	run.Bounds["base_kinds"] = []string{"send", "data", "smart-contract"}
-	run.Bounds["variants"] = []string{"plain", "rehash", "resender"}
+	run.Bounds["variants"] = []string{"plain", "rehash", "resender", "respell-{upper,mixed,miracl}/{plain,rehash} for every hex-valued field"}
 	fields := wireFields(reflect.TypeOf(transaction.Transaction{}), nil)
 	var fnames, unclassified []string
 	for _, f := range fields {
@@ -306,6 +308,26 @@ func c30() {
 					}
 				}
 			}
+			// respellings: the same bytes / the same group element written differently (hex letter case,
+			// MIRACL forms). Nothing but the spelling of ONE field changes.
+			for _, f := range fields {
+				bv := reflect.ValueOf(base.txn).Elem().FieldByIndex(f.Index)
+				if bv.Kind() != reflect.String {
+					continue
+				}
+				for _, rs := range respellings(f.Name, bv.String(), scheme) {
+					desc := fmt.Sprintf("%s respelled (%s): %s -> %s", f.Name, rs.how, bv.String(), rs.val)
+					t := clone()
+					reflect.ValueOf(t).Elem().FieldByIndex(f.Index).SetString(rs.val)
+					try(f.Name, "respell-"+rs.how+"/plain", t, desc)
+					if f.Name != "Hash" {
+						t2 := clone()
+						reflect.ValueOf(t2).Elem().FieldByIndex(f.Index).SetString(rs.val)
+						t2.Hash = t2.ComputeHash()
+						try(f.Name, "respell-"+rs.how+"/rehash", t2, desc)
+					}
+				}
+			}
 			// sender replaced as a whole by another real client
 			t := clone()
 			t.ClientID, t.PublicKey = other.txn.ClientID, other.txn.PublicKey
@@ -327,4 +349,56 @@ func c30() {
 	}
 	listOutcomes(run)
 	run.Finish()
+}
+
+// canonicalKey: a public key is the bytes it decodes to; hex letter case is not part of it.
+func canonicalKey(pk string) string {
+	if b, err := hex.DecodeString(pk); err == nil {
+		return hex.EncodeToString(b)
+	}
+	return pk
+}
+
+type respelling struct{ how, val string }
+
+// respellings of a hex-valued field: upper case, mixed case, and for bls0chain signatures / public
+// keys the MIRACL forms that MiraclToHerumiSig / MiraclToHerumiPK convert back.
+func respellings(field, v, scheme string) []respelling {
+	if _, err := hex.DecodeString(v); err != nil || v == "" || strings.ToUpper(v) == v {
+		return nil
+	}
+	out := []respelling{{"upper", strings.ToUpper(v)}}
+	b := []byte(v)
+	n := 0
+	for i := range b {
+		if b[i] >= 'a' && b[i] <= 'f' {
+			if n%2 == 0 {
+				b[i] -= 'a' - 'A'
+			}
+			n++
+		}
+	}
+	if m := string(b); m != v && m != strings.ToUpper(v) {
+		out = append(out, respelling{"mixed", m})
+	}
+	if scheme == encryption.SignatureSchemeBls0chain {
+		pad := func(x string) string { return strings.Repeat("0", 64-len(x)) + x }
+		switch field {
+		case "Signature":
+			var sg hbls.Sign
+			if sg.DeserializeHexStr(v) == nil {
+				if f := strings.Fields(sg.GetHexString()); len(f) == 3 { // "1 x y"
+					out = append(out, respelling{"miracl", "(" + f[1] + "," + f[2] + ")"})
+				}
+			}
+		case "PublicKey":
+			var pk hbls.PublicKey
+			if pk.DeserializeHexStr(v) == nil {
+				if f := strings.Fields(pk.GetHexString()); len(f) == 5 { // "1 a b c d"; MiraclToHerumiPK reads 04|n1|n2|n3|n4 as "1 n2 n1 n4 n3"
+					out = append(out, respelling{"miracl", "04" + pad(f[2]) + pad(f[1]) + pad(f[4]) + pad(f[3])})
+				}
+			}
+		}
+	}
+	return out
 }
